@@ -497,6 +497,8 @@ def run(ctx):
     check_order(ctx)
     check_count(ctx)
     check_own(ctx)
+    from .C05 import check_mutable_defaults
+    check_mutable_defaults(ctx, "C18-STATE")
     check_no_defaults(ctx)
     check_global_units(ctx)
     from .C07 import _Relabel
